@@ -111,8 +111,15 @@ func (b *balancer) next() (int, error) {
 	if len(b.roundRobinQ) == 1 {
 		return b.roundRobinQ[0], nil
 	}
-	// 无锁原子自增（自动处理溢出）
-	newIndex := atomic.AddUint32(&b.nextIndex, 1)
-	idx := int64(newIndex) % int64(len(b.roundRobinQ))
-	return b.roundRobinQ[idx], nil
+	// lock-free advance that keeps the counter inside [0, len(roundRobinQ)): a plain
+	// uint32 increment reduced modulo len skips queue positions when the counter wraps
+	// at 2^32 and len does not divide 2^32
+	n := uint32(len(b.roundRobinQ))
+	for {
+		old := atomic.LoadUint32(&b.nextIndex)
+		idx := (old + 1) % n
+		if atomic.CompareAndSwapUint32(&b.nextIndex, old, idx) {
+			return b.roundRobinQ[idx], nil
+		}
+	}
 }
